@@ -8,9 +8,9 @@ import (
 	"crypto/sha1"
 	"encoding/json"
 	"flag"
+	"fmt"
 	"go/token"
 	"go/types"
-	"fmt"
 	"os"
 	"path/filepath"
 	"runtime"
@@ -254,7 +254,7 @@ func cmdCheck(args []string) int {
 	for _, r := range results {
 		if r.Status == "error" || r.Status == "inconclusive" {
 			inconclusive++
-			fmt.Fprintf(os.Stderr, "INCONCLUSIVE job %s: %s %s %v\n", r.Spec.String(), r.Status, r.Error, r.SolverErrors)
+			fmt.Fprintf(os.Stderr, "INCONCLUSIVE job %s: %s %s %v obligations=%v\n", r.Spec.String(), r.Status, r.Error, r.SolverErrors, r.InconclusiveIDs)
 		}
 		for k, v := range r.Reach {
 			if v != "sat" {
@@ -425,22 +425,22 @@ func writeEvidence(prop, tier string, seed int, def CheckDef, results []*JobResu
 		"wall_s":      wall,
 		"violations":  confirmed,
 		"coverage": map[string]interface{}{
-			"states":                        max(states, 1),
-			"transitions":                   max(transitions, 1),
-			"traces_validated_against_impl": validated,
-			"samples":                       samples,
-			"obligations":                   obligations,
-			"discharged":                    discharged,
-			"inconclusive":                  incon + int64(inconclusive),
-			"functions_encoded":             fnames,
-			"bounds":                        def.Bounds,
-			"outside_claim":                 def.Outside,
-			"solver":                        map[string]interface{}{"name": "z3 5.1.0 (z3-new -in, push/pop)", "queries": solverQ, "total_ms": int(solverMs), "max_ms": int(solverMax)},
-			"jobs":                          jobsum,
-			"encoder_mismatches":            mismatch,
-			"known_findings_hit":            kh,
+			"states":                            max(states, 1),
+			"transitions":                       max(transitions, 1),
+			"traces_validated_against_impl":     validated,
+			"samples":                           samples,
+			"obligations":                       obligations,
+			"discharged":                        discharged,
+			"inconclusive":                      incon + int64(inconclusive),
+			"functions_encoded":                 fnames,
+			"bounds":                            def.Bounds,
+			"outside_claim":                     def.Outside,
+			"solver":                            map[string]interface{}{"name": "z3 5.1.0 (z3-new -in, push/pop)", "queries": solverQ, "total_ms": int(solverMs), "max_ms": int(solverMax)},
+			"jobs":                              jobsum,
+			"encoder_mismatches":                mismatch,
+			"known_findings_hit":                kh,
 			"package_level_stores_outside_init": gs,
-			"rule": "states = merged symbolic states scheduled by the SSA executor (each stands for every input satisfying its path condition); transitions = CFG edges taken; every assertion site and implicit run-time check is an obligation discharged by the SMT solver (unsat = holds for all inputs in the bound) or decided on the exact per-byte value sets of the path condition",
+			"rule":                              "states = merged symbolic states scheduled by the SSA executor (each stands for every input satisfying its path condition); transitions = CFG edges taken; every assertion site and implicit run-time check is an obligation discharged by the SMT solver (unsat = holds for all inputs in the bound) or decided on the exact per-byte value sets of the path condition",
 		},
 		"assumptions": def.Assume,
 	}
